@@ -487,6 +487,9 @@ def norm_events(revs, ostep):
                          dtype=nz(e.get('dtype')))
             elif e['h'] == 'F':
                 n.update(step=e['step'], stage=e['stage'])
+        elif k == 'Stored':
+            n.update(step=e['step'], prev=nz(e.get('prev')), out=nz(e.get('out')), data=e.get('data') or [],
+                     conforms={True: 'y', False: 'n'}.get(e.get('conforms'), 'na'), dtype=nz(e.get('dtype')))
         elif k == 'Resolve':
             n.update(node=e['node'], status=e['status'])
         elif k == 'ResolveErr':
